@@ -324,6 +324,7 @@ type vf10Out struct {
 	setupErr     string
 	readErr      string
 	magicFound   bool
+	scanRejected bool // Read returned an error although no read or write of the connection had failed
 	secretKnown  bool
 	slow         bool
 	fired        bool
@@ -593,6 +594,7 @@ func vf10Run(cs *vf10Case) (string, *vf10Out) {
 		out.readErr = e.Error()
 	}
 	out.delivered = ep.GotLen()
+	out.scanRejected = out.setupOK && ep.ReadErr() != nil && wc.readErrs.Load() == 0
 	if wc.setupWrErrs.Load() > 0 && ep.SetupErr() == nil {
 		return fail("VIOL[c10-obfs3-error-swallowed]: a write of the connection failed during the handshake and the handshake did not return an error")
 	}
@@ -624,6 +626,9 @@ func vf10Classes(unit string, cs *vf10Case, o *vf10Out) ([]string, bool) {
 		cls = append(cls, unit+"-scan-limit-hit")
 	default:
 		cls = append(cls, unit+"-scan-ended-by-io-error")
+	}
+	if o.scanRejected {
+		cls = append(cls, unit+"-scan-rejected-by-parser")
 	}
 	if o.setupOK {
 		cls = append(cls, unit+"-past-key-exchange")
@@ -752,8 +757,11 @@ func TestVerifC10Obfs3Bytes(t *testing.T) {
 	c.Rule("obfs3-bytes: real client (Dial) or server (WrapConn) against a scripted peer over the gated wire: input shapes random / shorter than a key / key (own, other representative, 0, 1, p, p-1, all-ff) + padding + magic at offsets 0, 1, 4097, 8193, 8194, uniform + data up to 1 MiB / magic after 8195.. / no magic with 0..1 MiB of garbage (8225, 8226, 8227) / partial magic / magic with a flipped bit / the real side's own magic reflected / two magics / zeros / valid exchange cut anywhere; the peer knows the secret whenever it sent a key it owns or a degenerate value; chunk plans, wire read caps, real-side padding steered; application writes; ending EOF / read error at an offset / fired handshake deadline / write error at an offset of the real side's output; oracle: no panic, every call returns once the ending is delivered (quiescence; wedge only after 20 s + 60 s), rxBuf <= 24678 bytes (capacity <= 65536) at every quiescent point, handshake read requests <= 16452 bytes, injected write errors are returned, deadline armed before the first Read and cleared after success, fired deadline ends the handshake with an error; non-trivial = input got past the key exchange (Dial / WrapConn succeeded, the magic scan ran); fingerprint = case structure")
 	c.Assume("the harness wire delivers every event that could wake the endpoint; quiescence = goroutine finished or parked in the wire's Read")
 	c.Floor("obfs3-bytes-past-key-exchange/obfs3-bytes", 0.40)
-	c.Floor("obfs3-bytes-magic-found/obfs3-bytes", 0.10)
-	c.Floor("obfs3-bytes-scan-limit-hit/obfs3-bytes", 0.05)
+	// (floors on behaviour - application bytes delivered; Read returned an error
+	// although the connection had not failed - not on the wording of errors or on
+	// private fields; the finer classes are counted without floors)
+	c.Floor("obfs3-bytes-post-handshake-bytes/obfs3-bytes", 0.08)
+	c.Floor("obfs3-bytes-scan-rejected-by-parser/obfs3-bytes", 0.05)
 	c.Floor("obfs3-bytes-input>=64KiB/obfs3-bytes", 0.10)
 	c.Floor("obfs3-bytes-deadline-fired/obfs3-bytes", 0.04)
 	c.Floor("obfs3-bytes-write-error-hit/obfs3-bytes", 0.04)
